@@ -18,5 +18,7 @@ GROUP = dict(
         dict(id='C13.wake_one.bounded', harness='h_wake_one', unwind=6, bounded='<= 3 waiters in the list; unwind 6'),
         dict(id='C13.await_suspend', harness='h_await_suspend', unwind=2),
         dict(id='C13.wake_all.bounded', harness='h_wake_all', unwind=6, bounded='<= 3 waiters in the list; unwind 6'),
+        dict(id='C13.wake_one.bounded6', harness='h_wake_one', unwind=9, tier='thorough', defines=['MAXN 6'], timeout=1800, backend='cadical', bounded='<= 6 waiters in the list; unwind 9'),
+        dict(id='C13.wake_all.bounded6', harness='h_wake_all', unwind=9, tier='thorough', defines=['MAXN 6'], timeout=1800, backend='cadical', bounded='<= 6 waiters in the list; unwind 9'),
     ],
 )
